@@ -580,13 +580,25 @@ pub(crate) fn add(ctx: &mut TulispContext) {
         destruct_bind!((var list &optional result) = spec);
         let mut list = ctx.eval(&list)?;
         var.set_scope(list.car()?)?;
+        let mut loop_res = Ok(());
         while list.is_truthy() {
-            let eval_res = ctx.eval_progn(&body);
-            eval_res?;
-            list = list.cdr()?;
-            var.set_unchecked(list.car()?);
+            if let Err(e) = ctx.eval_progn(&body) {
+                loop_res = Err(e);
+                break;
+            }
+            match list.cdr().and_then(|next| next.car().map(|car| (next, car))) {
+                Ok((next, car)) => {
+                    list = next;
+                    var.set_unchecked(car);
+                }
+                Err(e) => {
+                    loop_res = Err(e);
+                    break;
+                }
+            }
         }
         var.unset()?;
+        loop_res?;
         ctx.eval(&result)
     }
     intern_set_func!(ctx, dolist);
